@@ -459,10 +459,7 @@ func main() {
 			raced := strings.Contains(rep, "DATA RACE")
 			out.Extra("race_child_"+kind, map[string]any{"data_race": raced, "exit": fmt.Sprint(err)})
 			if raced {
-				var known any
-				if kind == "random" && strings.Contains(rep, "randomNextBackend") {
-					known = 4
-				}
+				var known any // C30-4 (rng race) is fixed (968926e): a race report is a violation again
 				if len(rep) > 1500 {
 					rep = rep[:1500]
 				}
